@@ -73,6 +73,7 @@ structure Frame where
   guardOK : Bool := false          -- sched/bulk: a cancel check of the set passed in this call
   zeroSeen : Bool := false         -- wait: the outstanding counter was observed to be zero
   rethrown : Bool := false         -- wait: testAndResetException rethrew in this call
+  zeroPath : Bool := false         -- bulk: the call found the pool without threads and runs all its tasks inline
   deriving Repr, Inhabited
 
 inductive Ev where
@@ -247,8 +248,10 @@ def step (s : St) (t : Nat) (e : Ev) : Option St :=
   | .quiesce v =>
     if s.quiescent ∧ v = s.pending then some s else none
   | .inline0 =>
-    if (f.kind = .sched ∨ f.kind = .bulk) ∧ f.pend = .none ∧ (s.nThreads = 0 ∨ s.resizing) then
-      some (s.setTop t { f with pend := .inlPool, fq := false })
+    -- forceEnqueue decides per task; scheduleBulkImpl reads numThreads_ once at the start of the call and
+    -- then runs every task of the call inline, even if the pool has been resized meanwhile (`zeroPath`)
+    if (f.kind = .sched ∨ f.kind = .bulk) ∧ f.pend = .none ∧ (s.nThreads = 0 ∨ s.resizing ∨ f.zeroPath) then
+      some (s.setTop t { f with pend := .inlPool, fq := false, zeroPath := f.kind = .bulk })
     else none
   | .inlinePool =>
     if (f.kind = .sched ∨ f.kind = .bulk) ∧ f.pend = .none ∧ ¬ f.fq then some (s.setTop t { f with pend := .inlPool })
